@@ -1,26 +1,20 @@
 //go:build verif
 
-// vsched: checks that run the repository's server package (instrumented at check
-// time) under the cooperative scheduler: C14, C13, C09, C20.
+// vsched: the checks that run the repository's server package (instrumented at
+// check time) under the cooperative scheduler: C14, C13, C09, C20. Same registry
+// as vcheck, built with -tags verif and the instrumentation overlay.
 package main
 
 import (
 	"fmt"
 	"os"
-	"runtime"
 	"runtime/pprof"
 	"time"
 
-	"github.com/consensys/gnark/logger"
-	"github.com/rs/zerolog"
-	"worldcoin/gnark-mbu/logging"
+	"verif/harness/checks"
 )
 
-var registry = map[string]func(){}
-
 func main() {
-	logger.Disable()
-	*logging.Logger() = logging.Logger().Level(zerolog.Disabled)
 	if len(os.Args) < 2 {
 		fmt.Fprintln(os.Stderr, "usage: vsched <ID> [--tier ..] [--replay file]")
 		os.Exit(2)
@@ -28,26 +22,14 @@ func main() {
 	if pf := os.Getenv("VSCHED_PROF"); pf != "" {
 		f, _ := os.Create(pf)
 		pprof.StartCPUProfile(f)
-		defer pprof.StopCPUProfile()
 		go func() { time.Sleep(25 * time.Second); pprof.StopCPUProfile(); f.Close() }()
 	}
 	id := os.Args[1]
 	os.Args = append(os.Args[:1], os.Args[2:]...)
-	f, ok := registry[id]
+	f, ok := checks.Registry[id]
 	if !ok {
 		fmt.Fprintln(os.Stderr, "unknown check", id)
 		os.Exit(2)
 	}
 	f()
-}
-
-func workers() int {
-	if s := os.Getenv("VSCHED_WORKERS"); s != "" {
-		var n int
-		fmt.Sscan(s, &n)
-		if n > 0 {
-			return n
-		}
-	}
-	return runtime.NumCPU()
 }
